@@ -177,6 +177,30 @@ def gen_case(rng, src, tgt):
     return case
 
 
+def simple_cases(src, tgt):
+    """The smallest members of the domain, simplest first, so that recorded witnesses are minimal: per key count one
+    hit in the top column at beat 1 (then: + a hold 2..3 in column 0 and a tempo change at measure 1), beat 0 at 0 ms
+    and, where the source has an offset, at 500 ms."""
+    out = []
+    for t0 in (0, 500) if src in ("osu", "qua", "sm") else (0,):
+        for rich in (False, True):
+            for k in _keys_for(src, tgt):
+                objs = [[k - 1, "1", "0"]] + ([[0, "2", "1"], [k - 1, "9/2", "0"]] if rich else [])
+                n_charts = 3 if src == "o2j" else 1
+                score = dict(t0=t0, tempo=[[0, "120"]] + ([[1, "90"]] if rich else []), charts=[dict(keys=k, objs=objs) for _ in range(n_charts)])
+                case = dict(src=src, tgt=tgt, seed=1, score=score)
+                if src in ("osu", "qua"):
+                    case["int_ms"] = False
+                if (src, tgt) == ("o2j", "bms"):
+                    case["move_right_by"] = None
+                if src == "bms":
+                    case["layout"] = next(n for n, lanes in BMS_LANES.items() if lanes >= k)
+                if tgt == "bms":
+                    case["out_layout"] = next(n for n, lanes in BMS_LANES.items() if lanes >= k + ((src, tgt) == ("o2j", "bms")))
+                out.append(case)
+    return out
+
+
 # ============================================================================= source files (the C01..C07 emitters)
 
 
@@ -445,6 +469,10 @@ def denote_target(tgt, text, layout_name):
             bad.append(f"sections {d['sections']}")
         if d["meta"].get("Mode", "").strip() != "3":
             bad.append(f"Mode {d['meta'].get('Mode')!r} is not 3 (mania)")
+        lines = [l.strip() for l in text.split("\n")]
+        xs = [int(l.split(",")[0]) for l in lines[lines.index("[HitObjects]") + 1:] if l]
+        if any(not 0 <= x <= 512 for x in xs):
+            bad.append(f"hit object x {sorted(set(x for x in xs if not 0 <= x <= 512))[:4]} outside the playfield 0..512 (CircleSize {d['meta'].get('CircleSize')})")
         return bad, chart
     if tgt == "qua":
         try:
@@ -560,6 +588,9 @@ def _active(tempo, t):
     return cur
 
 
+READ_NOISE = 1e-3  # ms
+
+
 class Tolerance:
     """The coarser of the two formats' resolutions, at the local tempo of the SOURCE timeline."""
 
@@ -573,11 +604,13 @@ class Tolerance:
 
     def within(self, a, b):
         d = abs(a - b)
-        return d <= self.grid(a) + 1e-3 or (self.whole_ms and d < 1.0)  # 1e-3 ms: float noise of the two oracles
+        # READ_NOISE: what the source-format properties allow a reader (C02 / C04 / C07: 1e-3 ms); a time the file
+        # denotes as 325 ms may be held as 324.99999999999994 and is then written, truncated, as 324
+        return d <= self.grid(a) + READ_NOISE or (self.whole_ms and d < 1.0 + READ_NOISE)
 
     def describe(self, t):
-        g = self.grid(t)
-        return f"{max(g, 1.0) if self.whole_ms else g + 1e-3:.4f} ms"
+        g = self.grid(t) + READ_NOISE
+        return f"{g:.4f} ms" if not self.whole_ms or g >= 1.0 + READ_NOISE else f"< {1.0 + READ_NOISE} ms"
 
 
 def _pairwise(S, T, key, same):
@@ -625,6 +658,8 @@ def compare(case, want, got):
             loose = _pairwise(W["objs"], got["objs"], lambda o: (o[2], o[0], o[3]), lambda a, b: a[0] == b[0] and tol.within(a[2], b[2]))
             a, b = bad
             if loose is None:
+                k2 = lambda o: (round(o[2]), o[0], o[3], o[1])  # noqa
+                a, b = next(((x, y) for x, y in zip(sorted(W["objs"], key=k2), sorted(got["objs"], key=k2)) if x[1] != y[1]), (a, b))
                 fails.append(("columns", f"same kinds and start times, other columns: source {a[0]} column {a[1]} at {a[2]:.3f} ms, written file {b[0]} column {b[1]} at {b[2]:.3f} ms (expected column = source column + {shift})"))
             else:
                 fails.append(("objects", f"source {a[0]} column {a[1]} at {a[2]:.3f} ms <-> written {b[0]} column {b[1]} at {b[2]:.3f} ms: difference {b[2] - a[2]:.4f} ms, allowed {tol.describe(a[2])}"))
@@ -745,18 +780,25 @@ def _drive(rep, src, n_quick, n_thorough):
         "o2j": "3 difficulties sharing the tempo events (header tempo + channel-1 events at measure starts), 7 columns, hits / head-tail pairs across packages and measures; O2JToBMS called with its default move_right_by=1 (expected column + 1) or with 0",
     }[src]
     rep.bound = (
-        f"{N} generated {NAME[src]} source files per target x targets {[NAME[t] for t in tgts]} = {N * len(tgts)} cases: 2-6 measures of 4/4, 1-4 tempo points ON MEASURE LINES (bpm pool {list(BPM_POOL)}: <= 3 decimals, float32-exact), "
+        f"per target ({[NAME[t] for t in tgts]}) first the smallest files (per key count one hit, then hit + hold + hit with a tempo change; beat 0 at 0 / 500 ms), then {N} generated {NAME[src]} source files = {N * len(tgts)} random cases: 2-6 measures of 4/4, 1-4 tempo points ON MEASURE LINES (bpm pool {list(BPM_POOL)}: <= 3 decimals, float32-exact), "
         f"beat 0 at {sorted(set(T0_POOL)) if src in ('osu', 'qua', 'sm') else [0]} ms, 1-5 used columns incl. always the top one, 1-4 objects per column at k/d beat, d in {list(DENS)} (the 1/48-beat grid), 40% holds of {list(HOLD_BEATS)} beats (across tempo changes and measure lines), "
         f">= 1/4 beat between objects of one column; key counts: Quaver side {list(QUA_KEYCOUNTS)}, .sm side {list(SM_TYPE)}, osu <-> BMS 1..9, O2Jam 7; BMS target layout = any layout with enough lanes; metadata text plain ASCII (no ':' ';' '//' '#', Shift-JIS encodable). {extra}. "
         "Kept away from (known limitations): tempo changes off measure lines (.sm #BPMS beats have two decimals; reseating of changes < 0.001 measure apart), BMS lines out of time order, objects before the first tempo point, stops, measure-length changes, SM mines / rolls / lifts / fakes"
     )
     rep.rule = "a case is one source file + one target game (real read -> real convert -> real write -> target oracle vs source oracle); non-trivial when the score has a tempo change and a hold; every source file is first parsed by its own oracle and compared with the score it was made from (self-check)"
     per = {t: 0 for t in tgts}
-    for i in range(N):
+    simple = {t: simple_cases(src, t) for t in tgts}
+    for i in range(-max(len(v) for v in simple.values()), N):
         for tgt in tgts:
             if rep.out_of_time(40, 540):
                 break
-            case = gen_case(rng, src, tgt)
+            if i < 0:
+                k = i + len(simple[tgt])
+                if k < 0:
+                    continue
+                case = simple[tgt][k]
+            else:
+                case = gen_case(rng, src, tgt)
             rep.case(case, nontrivial=_nontrivial(case))
             per[tgt] += 1
             for what, d in run_case(case):
@@ -766,27 +808,27 @@ def _drive(rep, src, n_quick, n_thorough):
 
 @bounded("C09", note="generated .osu files -> real OsuMap.read -> OsuToQua / OsuToSM / OsuToBMS -> real write -> den_qua / den_sm / den_bms of the written text vs den_osu of the source: valid, same objects, columns, hold ends, tempo timeline")
 def c09_from_osu(rep):
-    _drive(rep, "osu", 45, 900)
+    _drive(rep, "osu", 150, 3000)
 
 
 @bounded("C09", note="generated .qua files -> real QuaMap.read -> QuaToOsu / QuaToSM / QuaToBMS -> real write -> den_osu / den_sm / den_bms of the written text vs den_qua of the source")
 def c09_from_quaver(rep):
-    _drive(rep, "qua", 45, 900)
+    _drive(rep, "qua", 150, 3000)
 
 
 @bounded("C09", note="generated .sm files -> real SMMapSet.read -> SMToOsu / SMToQua / SMToBMS -> real write (one file per chart) -> den_osu / den_qua / den_bms of the written text vs den_sm of the source")
 def c09_from_sm(rep):
-    _drive(rep, "sm", 40, 800)
+    _drive(rep, "sm", 130, 2600)
 
 
 @bounded("C09", note="generated BMS files (all five layouts) -> real BMSMap.read -> BMSToOsu / BMSToQua / BMSToSM -> real write -> den_osu / den_qua / den_sm of the written text vs den_bms of the source")
 def c09_from_bms(rep):
-    _drive(rep, "bms", 45, 900)
+    _drive(rep, "bms", 150, 3000)
 
 
 @bounded("C09", note="generated .ojn files (3 difficulties) -> real O2JMapSet.read -> O2JToOsu / O2JToQua / O2JToSM / O2JToBMS -> real write (one file per difficulty) -> den_osu / den_qua / den_sm / den_bms of the written text vs den_ojn of the source")
 def c09_from_o2jam(rep):
-    _drive(rep, "o2j", 25, 500)
+    _drive(rep, "o2j", 60, 1200)
 
 
 def _replay(case, what):
